@@ -189,6 +189,9 @@ func (w *World) readDirectives(pkg *ssa.Package, f *ast.File) error {
 	for _, cg := range f.Comments {
 		for _, cm := range cg.List {
 			line := strings.TrimSpace(cm.Text)
+			if strings.HasPrefix(line, "// @") { // gofmt rewrites //@ in doc comments
+				line = "//@" + line[4:]
+			}
 			if !strings.HasPrefix(line, "//@") {
 				continue
 			}
